@@ -31,7 +31,8 @@ class C30(Check):
         out = []
         for _ in range(40 if self.tier == "quick" else 400):
             n = rng.randint(1, 4)
-            terms = [dict(pos=1001 + i, **{"in": rng.randint(8, 14), "out": rng.randint(4, 9)}, fmmu=rng.random() < 0.6, rw=True)
+            # a quarter of the terminals have outputs but are only read by the group's devices
+            terms = [dict(pos=1001 + i, **{"in": rng.randint(8, 14), "out": rng.randint(4, 9)}, fmmu=rng.random() < 0.6, rw=rng.random() < 0.75)
                      for i in range(n)]
             cycles = []
             for c in range(rng.randint(3, 6)):
@@ -56,9 +57,11 @@ class C30(Check):
             outb = TerminalVar()
             outy = TerminalVar()
 
-            def __init__(self, t):
+            def __init__(self, t, rw=True):
                 self.inw, self.inb, self.inl = t.in_word, t.in_bit, t.in_long
-                self.outw, self.outb, self.outy = t.out_word, t.out_bit, t.out_byte
+                self.rw = rw
+                if rw:
+                    self.outw, self.outb, self.outy = t.out_word, t.out_bit, t.out_byte
                 self.seen, self.script, self.errs = [], [], []
 
             def update(self):
@@ -66,17 +69,18 @@ class C30(Check):
                 self.errs.append(self.sync_group.wkc_errors)
                 if self.script:
                     w, b, y = self.script.pop(0)
-                    self.outw, self.outb, self.outy = w, b, y
+                    if self.rw:
+                        self.outw, self.outb, self.outy = w, b, y
 
         async def go():
             rig = Rig(case["terms"])
-            devs = [RecDevice(t) for t in rig.terms]
+            devs = [RecDevice(t, s_.get("rw", True)) for t, s_ in zip(rig.terms, case["terms"])]
             for d, t in zip(devs, rig.terms):
                 d.script = [c["outs"][t.position] for c in case["cycles"]]
             sg = SyncGroup(rig.ec, devs)
             sg.cycletime = 0
             cyc = {"n": 0}
-            records = []
+            records, truths = [], []
 
             def deliver(no, req, resp):
                 idx, = struct.unpack_from("<I", req, 4)
@@ -93,11 +97,14 @@ class C30(Check):
                 r = bytearray(resp)
                 # tamper with working counters of the response
                 length, dgs, _ = parse_frame(resp)
+                # what the (simulated) terminals really counted: the number of terminals that processed each datagram
+                true = {d["datapos"] + d["len"]: d["wkc"] for d in dgs[1:]}
+                truths.append(true)
                 for dno, how in c["tamper"].items():
                     if dno + 1 < len(dgs):
                         d = dgs[dno + 1]
                         p = d["datapos"] + d["len"]
-                        exp = sg.packet.counters[p]
+                        exp = true[p]
                         val = {"+1": exp + 1, "+256": exp + 256, "+512": exp + 512, "0": 0, "-1": (exp - 1) % 65536, "x": 0xab00 + exp}[how]
                         struct.pack_into("<H", r, p, val % 65536)
                 records.append(("cycle", bytes(req), bytes(r)))
@@ -136,7 +143,7 @@ class C30(Check):
             counters = sorted(sg.packet.counters.items())
             assign = {t.position: dict((sm.name, v) for sm, v in sg.pdo_assign[t].items()) for t in rig.terms}
             outs_mem = [bytes(sim.mem[0x1100:0x1100 + t["out"]]) for sim, t in zip(rig.sims, case["terms"])]
-            return {"records": records, "counters": counters, "assign": assign,
+            return {"records": records, "counters": counters, "assign": assign, "truths": [sorted(t.items()) for t in truths],
                     "seen": [d.seen for d in devs], "errs": [d.errs for d in devs][0], "final": final_req, "outs_mem": outs_mem}
         try:
             return asyncio.run(go())
@@ -157,6 +164,8 @@ class C30(Check):
             cleared[p] = cleared[p + 1] = 0
         ps = []
         for t in case["terms"]:
+            if not t.get("rw", True):
+                continue
             w, b, y = case["cycles"][k]["outs"][t["pos"]]
             base = o["assign"][t["pos"]]["OUT"]
             ps += [(base, w & 0xff), (base + 1, w >> 8)]
@@ -207,6 +216,8 @@ class C30(Check):
                     return f"cycle {k}: device of terminal {t['pos']} saw {o['seen'][ti][k]}, the bus delivered {want}"
             # (b) outputs in the next frame, (c) counters cleared
             for t in case["terms"]:
+                if not t.get("rw", True):
+                    continue
                 w, b, y = c["outs"][t["pos"]]
                 base = o["assign"][t["pos"]]["OUT"]
                 got = (struct.unpack_from("<H", nxt, base)[0], bool(nxt[base + 2] & 0x20), nxt[base + 3])
@@ -217,10 +228,13 @@ class C30(Check):
                     return f"cycle {k}: working counter at {p} resent as {nxt[p] | nxt[p + 1] << 8}, not cleared"
             # (d) errors from the second cycle on
             if k >= 1:
-                wrong = sum(1 for p, cnt in o["counters"] if struct.unpack_from("<H", resp, p)[0] != cnt)
+                # the number of terminals expected to process a datagram is what the simulated terminals count on a healthy bus
+                true = dict(o["truths"][k]) if k < len(o.get("truths", [])) else dict(o["counters"])
+                wrong = sum(1 for p, cnt in true.items() if struct.unpack_from("<H", resp, p)[0] != cnt)
                 if errs[k] - errs[k - 1] != wrong:
-                    return (f"cycle {k}: {wrong} datagrams returned a wrong working counter "
-                            f"({[(p, struct.unpack_from('<H', resp, p)[0], cnt) for p, cnt in o['counters']]}), {errs[k] - errs[k - 1]} errors counted")
+                    return (f"cycle {k}: {wrong} datagrams returned a working counter different from the number of terminals that process them "
+                            f"({[(p, struct.unpack_from('<H', resp, p)[0], cnt) for p, cnt in sorted(true.items())]}), {errs[k] - errs[k - 1]} errors counted; "
+                            f"the master expects {o['counters']}")
         return True
 
     def main(self):
@@ -235,7 +249,7 @@ class C30(Check):
         return not isinstance(o, Err) and any(c["tamper"] for c in case["cycles"][1:])
 
     def rule(self):
-        return ("1-4 terminals (FMMU or direct addressing, in 8-14 / out 4-9 bytes) in a real SyncGroup on the simulated bus, 3-6 cycles with random input data, "
+        return ("1-4 terminals (FMMU or direct addressing, in 8-14 / out 4-9 bytes, a quarter only read although they have outputs) in a real SyncGroup on the simulated bus, 3-6 cycles with random input data, "
                 "device outputs (word, bit, byte per terminal), working counters tampered per datagram (+1, +256, +512, 0, -1, high byte garbage) and 4% lost frames; "
                 "non-trivial = a tampered counter after the first cycle")
 
